@@ -4,7 +4,7 @@ G = 'cnfgen/graphs.py'
 
 CLASSMODELS = {
     # abstract view used by the constructions: vertex count and the acyclicity flag.
-    'DirectedGraph': {'file': G, 'fields': {'n': 'int', 'still_a_dag': 'bool', 'nedges_added': 'int'}},
+    'DirectedGraph': {'file': G, 'fields': {'n': 'int', 'still_a_dag': 'bool', 'nedges_added': 'int', 'edgeset': 'pairset', 'm': 'int'}},
 }
 
 CONTRACTS = {
@@ -12,8 +12,9 @@ CONTRACTS = {
         'trusted': 'contract of the constructor as read from the code: n vertices, no edge, acyclic flag set',
         'params': {'n': 'int', 'name': 'str'},
         'requires': ['n >= 0'],
-        'modifies': ['self.n', 'self.still_a_dag', 'self.nedges_added'],
-        'ensures': ['self.n == n', 'self.still_a_dag', 'self.nedges_added == 0'],
+        'modifies': ['self.n', 'self.still_a_dag', 'self.nedges_added', 'self.edgeset', 'self.m'],
+        'ensures': ['self.n == n', 'self.still_a_dag', 'self.nedges_added == 0', 'self.m == 0',
+                    'forall(lambda x, y: not ((x, y) in self.edgeset))'],
     },
     (G, 'DirectedGraph.add_edge'): {
         # add_edge refuses out-of-range vertices with ValueError: constructions must never trigger it,
@@ -21,17 +22,23 @@ CONTRACTS = {
         'assumed': 'abstract view of DirectedGraph.add_edge (is_dag flag, number of add_edge calls); checked against the real code in C16',
         'params': {'src': 'int', 'dest': 'int'},
         'requires': ['1 <= src', 'src <= self.n', '1 <= dest', 'dest <= self.n'],
-        'modifies': ['self.still_a_dag', 'self.nedges_added'],
+        'modifies': ['self.still_a_dag', 'self.nedges_added', 'self.edgeset', 'self.m'],
         'ensures': ['self.still_a_dag == (old(self.still_a_dag) and src < dest)',
-                    'self.nedges_added == old(self.nedges_added) + 1'],
+                    'self.nedges_added == old(self.nedges_added) + 1',
+                    # the abstract edge set and the number of DISTINCT edges, exactly as proved for the real add_edge (graphs_adt.py)
+                    'forall(lambda x, y: ((x, y) in self.edgeset) == (((x, y) in old(self.edgeset)) or (x == src and y == dest)))',
+                    'self.m == old(self.m) + ite((src, dest) in old(self.edgeset), 0, 1)'],
     },
     (G, 'dag_path'): {
         'property': ['C15', 'C16'],
         'params': {'length': 'int'},
         'raises': {'ValueError': 'length < 0'},
-        'loops': {0: {'inv': ['D.still_a_dag', 'D.nedges_added == _it'],    # loop-constant facts (D.n) persist by themselves
-                      'modifies_objects': ['D'], 'modifies_fields': {'D': ['still_a_dag', 'nedges_added']}}},
-        'ensures': ['result.n == length + 1', 'result.still_a_dag', 'result.nedges_added == length'],
+        'loops': {0: {'inv': ['D.still_a_dag', 'D.nedges_added == _it', 'D.m == _it',    # loop-constant facts (D.n) persist by themselves
+                              'forall(lambda x, y: ((x, y) in D.edgeset) == (1 <= x and x <= _it and y == x + 1))'],
+                      'modifies_objects': ['D'], 'modifies_fields': {'D': ['still_a_dag', 'nedges_added', 'edgeset', 'm']}}},
+        # the documented graph: vertices 1..length+1, exactly the edges (i, i+1) - `length` distinct edges
+        'ensures': ['result.n == length + 1', 'result.still_a_dag', 'result.nedges_added == length', 'result.m == length',
+                    'forall(lambda x, y: ((x, y) in result.edgeset) == (1 <= x and x <= length and y == x + 1))'],
     },
     (G, 'dag_pyramid'): {
         'property': ['C15', 'C16'],
@@ -42,26 +49,32 @@ CONTRACTS = {
                         '1 <= layer', 'layer <= height + 1',
                         '2 * leftsrc == 2 + 2 * (layer - 1) * (height + 1) - (layer - 1) * (layer - 2)',
                         '2 * dest == 2 + 2 * layer * (height + 1) - layer * (layer - 1)',
-                        '2 * D.nedges_added == 2 * (layer - 1) * (2 * height + 2 - layer)'],
-                'modifies_objects': ['D'], 'modifies_fields': {'D': ['still_a_dag', 'nedges_added']}},
+                        '2 * D.nedges_added == 2 * (layer - 1) * (2 * height + 2 - layer)',
+                        # every insertion so far was a NEW edge: all existing edges end below the next destination
+                        'D.m == D.nedges_added', 'forall(lambda x, y: implies((x, y) in D.edgeset, y < dest))'],
+                'modifies_objects': ['D'], 'modifies_fields': {'D': ['still_a_dag', 'nedges_added', 'edgeset', 'm']}},
             1: {'inv': ['D.still_a_dag',
                         '1 <= layer', 'layer <= height',
                         '2 * leftsrc == 2 + 2 * (layer - 1) * (height + 1) - (layer - 1) * (layer - 2) + 2 * _it',
                         '2 * dest == 2 + 2 * layer * (height + 1) - layer * (layer - 1) + 2 * _it',
-                        '2 * D.nedges_added == 2 * (layer - 1) * (2 * height + 2 - layer) + 4 * _it'],
-                'modifies_objects': ['D'], 'modifies_fields': {'D': ['still_a_dag', 'nedges_added']}},
+                        '2 * D.nedges_added == 2 * (layer - 1) * (2 * height + 2 - layer) + 4 * _it',
+                        'D.m == D.nedges_added', 'forall(lambda x, y: implies((x, y) in D.edgeset, y < dest))'],
+                'modifies_objects': ['D'], 'modifies_fields': {'D': ['still_a_dag', 'nedges_added', 'edgeset', 'm']}},
         },
         'ensures': ['2 * result.n == (height + 1) * (height + 2)', 'result.still_a_dag',
-                    'result.nedges_added == height * (height + 1)'],
+                    'result.nedges_added == height * (height + 1)',
+                    'result.m == height * (height + 1)'],       # the documented number of (distinct) edges
     },
     (G, 'dag_complete_binary_tree'): {
         'property': ['C15', 'C16'],
         'params': {'height': 'int'},
         'raises': {'ValueError': 'height < 0'},
         'loops': {0: {'inv': ['D.still_a_dag',
-                              'leftsrc == 1 + 2 * _it', 'dest == pow2(height) + 1 + _it', 'D.nedges_added == 2 * _it'],
-                      'modifies_objects': ['D'], 'modifies_fields': {'D': ['still_a_dag', 'nedges_added']}}},
-        'ensures': ['result.n == 2 * pow2(height) - 1', 'result.still_a_dag', 'result.nedges_added == 2 * pow2(height) - 2'],
+                              'leftsrc == 1 + 2 * _it', 'dest == pow2(height) + 1 + _it', 'D.nedges_added == 2 * _it',
+                              'D.m == 2 * _it', 'forall(lambda x, y: implies((x, y) in D.edgeset, y < pow2(height) + 1 + _it))'],
+                      'modifies_objects': ['D'], 'modifies_fields': {'D': ['still_a_dag', 'nedges_added', 'edgeset', 'm']}}},
+        'ensures': ['result.n == 2 * pow2(height) - 1', 'result.still_a_dag', 'result.nedges_added == 2 * pow2(height) - 2',
+                    'result.m == 2 * pow2(height) - 2'],        # the documented number of (distinct) edges
     },
     ('cnfgen/localtypes.py', 'non_negative_int'): {'inline_always': True},
     ('cnfgen/families/ramsey.py', '_vdw_ap_generator'): {
